@@ -3,6 +3,7 @@
 
 pub mod ext;
 pub mod policy;
+pub mod schema;
 
 use std::collections::{BTreeMap, BTreeSet};
 
